@@ -345,6 +345,15 @@ class Run(RunBase):
                         mp[c][rng.randrange(len(mp[c]))] = len(mp[c]) + rng.randrange(2)  # out of range
                     else:
                         mp[c] = mp[c][:-1]            # too short
+            if bad and rng.random() < 0.3:
+                # a second fault in a LATER species' map: too short, or an entry out of range
+                later = [c2 for c2 in range(len(mp)) if len(mp[c2]) >= 1]
+                if later:
+                    c2 = later[-1]
+                    if rng.random() < 0.5:
+                        mp[c2] = mp[c2][:-1]
+                    else:
+                        mp[c2][rng.randrange(len(mp[c2]))] = len(mp[c2]) + 1
             op = {"op": "reorder", "obj": k, "map": mp}
             if not bad and rng.random() < 0.2:
                 # maps longer than the species lists (a zero-padded rectangular table): the documented formula reads
